@@ -1,9 +1,23 @@
 #!/bin/bash
-# seed_run.sh <seed name> <PROP> [tier]: apply the seeded patch to /repo, run the check, undo.
+# seed_run.sh <seed name> <PROP> [tier] [--in-repo]
+# Runs a check against a seeded change.  Default: in a scratch worktree of /repo HEAD
+# (VERIF_REPO points the check at it, nothing in /repo or the committed evidence is touched),
+# so several can run at once.  --in-repo: the literal procedure (git -C /repo apply; check; checkout).
 NAME=$1; PROP=$2; TIER=${3:-quick}
-cd /repo && git diff --quiet || { echo "/repo is dirty"; exit 2; }
-git -C /repo apply /verif/seeded/$NAME/patch.diff || { echo "patch does not apply"; exit 2; }
-cd /verif && VERIF_NO_EVIDENCE=1 ./check $PROP --tier $TIER > /tmp/seedrun_${NAME}_${PROP}.log 2>&1; RC=$?
-git -C /repo checkout -- .
-echo "SEEDRUN $NAME on $PROP/$TIER: exit=$RC $(grep -c '^VIOLATION' /tmp/seedrun_${NAME}_${PROP}.log) violations; $(tail -1 /tmp/seedrun_${NAME}_${PROP}.log)"
+LOG=/tmp/seedrun_${NAME}_${PROP}.log
+if [ "$4" = "--in-repo" ]; then
+  cd /repo && git diff --quiet || { echo "/repo is dirty"; exit 2; }
+  git -C /repo apply /verif/seeded/$NAME/patch.diff || { echo "patch does not apply"; exit 2; }
+  cd /verif && VERIF_NO_EVIDENCE=.seed-$NAME ./check $PROP --tier $TIER > $LOG 2>&1; RC=$?
+  git -C /repo checkout -- .
+else
+  WT=/tmp/sr_${NAME}_${PROP}_$$
+  git -C /repo worktree add -q --detach $WT HEAD || exit 2
+  if ! git -C $WT apply /verif/seeded/$NAME/patch.diff 2>/dev/null && ! git -C $WT apply -3 /verif/seeded/$NAME/patch.diff 2>/dev/null; then
+     echo "SEEDRUN $NAME: patch does not apply"; git -C /repo worktree remove --force $WT; exit 2; fi
+  cd /verif && VERIF_REPO=$WT VERIF_NO_EVIDENCE=.seed-$NAME ./check $PROP --tier $TIER > $LOG 2>&1; RC=$?
+  git -C /repo worktree remove --force $WT
+fi
+rm -rf /verif/build/$PROP.seed-$NAME /verif/build/$PROP.seed-$NAME.seedrun-evidence.json
+echo "SEEDRUN $NAME on $PROP/$TIER: exit=$RC $(grep -c '^VIOLATION' $LOG) violations; $(tail -1 $LOG)"
 exit $RC
